@@ -8,6 +8,7 @@ import (
 	"math/big"
 	"sort"
 	"strings"
+	"sync"
 	"time"
 
 	"gosym/smt"
@@ -31,6 +32,8 @@ type Config struct {
 	SkipInit map[string]bool
 	Verbose  int
 	Deadline time.Time
+	// EagerMerge: ask the solver for branch feasibility inside merged callees too
+	EagerMerge bool
 }
 
 func DefaultConfig() Config {
@@ -108,13 +111,15 @@ type Engine struct {
 	rep     *Report
 	findingKeys map[string]bool
 	errStringType types.Type
+	valIdx  map[*ssa.Function]map[ssa.Value]int
+	viMu    sync.Mutex
 }
 
 type NativeFn func(ex *Exec, site ssa.Instruction, args []Value) Value
 
 func NewEngine(prog *ssa.Program, cfg Config) *Engine {
 	e := &Engine{Prog: prog, Fset: prog.Fset, TB: smt.NewTable(), Cfg: cfg, Models: map[string]*ssa.Function{},
-		Natives: map[string]NativeFn{}, funcsByName: map[string]*ssa.Function{}, strIntern: map[string]int{}}
+		Natives: map[string]NativeFn{}, funcsByName: map[string]*ssa.Function{}, strIntern: map[string]int{}, valIdx: map[*ssa.Function]map[ssa.Value]int{}}
 	registerNatives(e)
 	return e
 }
@@ -208,10 +213,43 @@ type inputRec struct {
 
 type frame struct {
 	fn     *ssa.Function
-	env    map[ssa.Value]Value
+	idx    map[ssa.Value]int
+	env    []Value
+	set    []bool
 	defers []func()
 	forks  map[ssa.Instruction]int
 	site   ssa.Instruction
+}
+
+func (f *frame) def(v ssa.Value, x Value) {
+	i := f.idx[v]
+	f.env[i] = x
+	f.set[i] = true
+}
+
+// valueIndex numbers the SSA values of a function (computed once).
+func (e *Engine) valueIndex(fn *ssa.Function) map[ssa.Value]int {
+	e.viMu.Lock()
+	defer e.viMu.Unlock()
+	if m, ok := e.valIdx[fn]; ok {
+		return m
+	}
+	m := map[ssa.Value]int{}
+	for _, p := range fn.Params {
+		m[p] = len(m)
+	}
+	for _, p := range fn.FreeVars {
+		m[p] = len(m)
+	}
+	for _, b := range fn.Blocks {
+		for _, ins := range b.Instrs {
+			if v, ok := ins.(ssa.Value); ok {
+				m[v] = len(m)
+			}
+		}
+	}
+	e.valIdx[fn] = m
+	return m
 }
 
 type Exec struct {
@@ -444,15 +482,24 @@ func (ex *Exec) branch(cond *smt.Term, site ssa.Instruction) bool {
 		ex.record(0)
 		return false
 	}
-	tF := ex.check(cond) != smt.Unsat
-	fF := true
-	if tF {
-		fF = ex.check(nc) != smt.Unsat
+	tF, fF := true, true
+	if len(ex.mergeMarks) > 0 && !ex.eng.Cfg.EagerMerge {
+		// inside a merged callee both sides are explored without asking the solver:
+		// an infeasible side only contributes an alternative under an unsatisfiable
+		// condition, and its obligations are still checked against pc
+	} else {
+		tF = ex.check(cond) != smt.Unsat
+		if tF {
+			fF = ex.check(nc) != smt.Unsat
+		}
 	}
 	switch {
 	case tF && fF:
 		if site != nil && len(ex.frames) > 0 {
 			f := ex.frames[len(ex.frames)-1]
+			if f.forks == nil {
+				f.forks = map[ssa.Instruction]int{}
+			}
 			f.forks[site]++
 			if f.forks[site] > ex.unwind {
 				fn, pos := ex.where()
@@ -561,6 +608,9 @@ func (ex *Exec) oblige(kind, label string, bad *smt.Term, detail string) {
 	switch r {
 	case smt.Unsat:
 		rep.Discharged++
+		// the negation is implied by the path condition: remember its
+		// arithmetic content (not added to the solver's assumptions)
+		ex.learnDerived(tb.Not(bad))
 		return
 	case smt.Unknown:
 		ex.eng.addInconclusive(Inconclusive{Reason: "solver unknown/timeout on obligation " + kind + " " + label, Func: fn, Pos: pos})
@@ -587,6 +637,21 @@ func (ex *Exec) oblige(kind, label string, bad *smt.Term, detail string) {
 	}
 	ex.addPC(tb.Not(bad))
 	ex.tr.assumed = true
+}
+
+func (ex *Exec) learnDerived(c *smt.Term) {
+	switch {
+	case c.Op == smt.OAnd:
+		for _, a := range c.Args {
+			ex.learnDerived(a)
+		}
+	case c.Op == smt.ONot && c.Args[0].Op == smt.OOr:
+		for _, a := range c.Args[0].Args {
+			ex.learnDerived(ex.tb().Not(a))
+		}
+	default:
+		ex.learn(c)
+	}
 }
 
 // extractInputs evaluates all named inputs in a model of pc ∧ extra.
